@@ -211,7 +211,7 @@ Proof.
   assert (SD : forall h1 k x, wf_heap h1 -> wf_heap (set_datum h1 k x) /\
             (forall o2, allocated h1 o2 -> allocated (set_datum h1 k x) o2)).
   { intros h1 k x W1. destruct (wf_heap_same_lvs h1 (set_datum h1 k x) eq_refl eq_refl) as (A & B & _). auto. }
-  destruct e as [m ls dl|m ls v|m ls|m ls ex]; cbn [exec_effect];
+  destruct e as [m ls dl|m ls v|m ls|m ls ex|]; cbn [exec_effect]; [| | | |discriminate];
     destruct (nth_error objs m) as [[o d]|] eqn:NE; try discriminate;
     pose proof (AO o d (nth_error_In _ _ NE)) as A.
   - destruct (get_datum h o d ls now) as [[h1 k]|] eqn:G; [|discriminate]. intros X. injection X as <-.
